@@ -1334,8 +1334,12 @@ impl FunctionCompiler<'_> {
                     } else {
                         assert_eq!(arg.values.len(), 1);
 
-                        if let Some(value) =
-                            self.compile_and_cast(arg.values[0], arg.associated_param.ty)
+                        let value = self.compile_and_cast(arg.values[0], arg.associated_param.ty);
+
+                        // zero-sized arguments are evaluated but never passed
+                        // (an empty struct still compiles to the address of its local)
+                        if let Some(value) = value
+                            && !arg.associated_param.ty.is_zero_sized()
                         {
                             arg_values.push(value);
                         }
